@@ -11,6 +11,7 @@ import (
 	"bytes"
 	"encoding/json"
 	"fmt"
+	"os"
 	"sync"
 	"sync/atomic"
 	"testing"
@@ -127,8 +128,40 @@ func visibleOffsets(bs []simLogBatch, start int64, rc bool) []int64 {
 	return out
 }
 
+// hook-level events of the feeder go to a second file (soft conformance, spec/FeederConfTrace.tla)
+var vConsInternalRec *vRec
+
 func runConsumerScenario(t testing.TB, rec *vRec, sc *consScenario) {
 	rec = rec.Sub() // scoped to this scenario: stragglers of an abandoned run cannot pollute later traces
+	if vConsInternalRec != nil {
+		irec := vConsInternalRec.Sub()
+		irec.Reset(kv{"name": sc.Name})
+		verifHook = func(point string, args ...interface{}) {
+			if len(args) == 0 {
+				return
+			}
+			part, ok := args[0].(int32)
+			if !ok {
+				return
+			}
+			switch point {
+			case "pc.parsed":
+				n, _ := args[1].(int)
+				irec.Ev("pc_parsed", kv{"part": int(part), "n": n, "err": errClassAny(args[2])})
+			case "pc.sent":
+				off, _ := args[1].(int64)
+				irec.Ev("pc_sent", kv{"part": int(part), "off": int(off)})
+			case "pc.tick":
+				f, _ := args[1].(bool)
+				irec.Ev("pc_tick", kv{"part": int(part), "first": f})
+			case "pc.resub":
+				irec.Ev("pc_resub", kv{"part": int(part)})
+			case "pc.done":
+				irec.Ev("pc_done", kv{"part": int(part)})
+			}
+		}
+		defer func() { verifHook = nil }()
+	}
 	cf := sc.Cfg
 	if cf.NBrokers == 0 {
 		cf.NBrokers = 1
@@ -483,10 +516,21 @@ func runConsumerScenario(t testing.TB, rec *vRec, sc *consScenario) {
 	rec.Ev("fin", nil)
 }
 
+func errClassAny(v interface{}) string {
+	if e, ok := v.(error); ok && e != nil {
+		return errClass(e)
+	}
+	return ""
+}
+
 func TestVerifConsumer(t *testing.T) {
 	lines := vReadLines(t, "VERIF_CASES")
 	rec := vOpenRec(t, "trace.ndjson")
 	defer rec.Close()
+	if os.Getenv("VERIF_INTERNAL") != "" {
+		vConsInternalRec = vOpenRec(t, "internal.ndjson")
+		defer func() { vConsInternalRec.Close(); vConsInternalRec = nil }()
+	}
 	vInstallPanicHandler(rec)
 	defer func() { PanicHandler = nil }()
 	n := 0
